@@ -111,7 +111,11 @@ class Ctx:
         return outp
 
     def run(self, args, timeout=1800, env=None, cwd=None, ok=(0,)):
-        r = subprocess.run(args, capture_output=True, text=True, timeout=timeout, env=env or GOENV, cwd=cwd)
+        try:
+            r = subprocess.run(args, capture_output=True, text=True, timeout=timeout, env=env or GOENV, cwd=cwd)
+        except subprocess.TimeoutExpired:
+            subprocess.run(["pkill", "-f", re.escape(str(args[0]))[:-1] + "[" + str(args[0])[-1] + "]"])
+            raise Inconclusive("command did not finish within %d s: %s" % (timeout, " ".join(map(str, args[:3]))))
         if r.returncode not in ok:
             fr = crash_frame(r.stderr)
             if fr and fr.startswith("github.com/welllog/golib/") and "verifshim" not in fr:
@@ -628,16 +632,7 @@ def conc_component(ctx, comp, specdir, mcmod, emit_cfg, gocmd, overlays, shim_fi
     binp = ctx.go_build(gocmd)
     outd = os.path.join(ctx.out, comp)
     os.makedirs(outd, exist_ok=True)
-    # ---- model -> code
-    ctx.run([binp, "walk", "-edges", r["out"], "-out", outd, "-mode", walk_mode, "-seed", str(ctx.seed), "-traceevery", "1000000",
-             "-maxlen", str(maxlen), "-maxsusp", "3"], timeout=3000)
-    ws = read_json(os.path.join(outd, "walk_stats.json"))
-    log("walk %s: nodes=%d edges=%d covered=%d paths=%d steps=%d drift=%d suspects=%d whitebox=%s" % (
-        comp, ws["nodes"], ws["edges_total"], ws["edges_covered"], ws["paths"], ws["steps"], ws["drift"], len(ws["suspects"]), ws["whitebox"]))
-    ctx.cov["edges_replayed"] += ws["edges_covered"]
-    ctx.cov["engines"].append({"engine": "E3 detsched replay of TLC edges", "component": comp, "nodes": ws["nodes"], "edges_total": ws["edges_total"],
-                               "edges_covered": ws["edges_covered"], "paths": ws["paths"], "steps": ws["steps"], "whitebox": ws["whitebox"]})
-    ctx.cov["samples"] += ws["samples"][:1]
+    ws = {"suspects": [], "drift": 0}
     def judge(histfile, tag, what, n_label):
         ok, bad, nh, nev = validate_hist(ctx, hs_dir, hs_mod, hs_cfg, histfile, tag, max_events=hist_budget, seed=ctx.seed)
         log("TLC history validation %s %s: %d histories, %d events, %s" % (comp, what, nh, nev, "accepted" if ok else "REJECTED"))
@@ -648,31 +643,51 @@ def conc_component(ctx, comp, specdir, mcmod, emit_cfg, gocmd, overlays, shim_fi
             ctx.violation("%s (%s): the abstract FIFO history spec rejects event %d: %s" % (comp, what, bad["failing_event_index"], json.dumps(fe)[:300]),
                           dict(bad, component=comp + "Hist", how=what), key="%s/hist/%s/%s" % (kp, fe.get("ev"), fe.get("op", "")))
         return ok
-    for i, sp in enumerate(ws["suspects"]):
-        rp = read_json(sp)
-        mm = rp["mismatch"]
-        if mm["kind"] in ("panic", "hang"):
-            ctx.violation("%s: real code %s under schedule: %s" % (comp, mm["kind"], mm["actual"]), rp, key="%s/%s" % (kp, mm["kind"]))
-            continue
-        exd = os.path.join(outd, "explore%d" % i)
-        os.makedirs(exd, exist_ok=True)
-        ctx.run([binp, "explore", "-file", sp, "-out", exd, "-budget", str(explore_budget), "-maxlen", "14"], timeout=1200)
-        es = read_json(os.path.join(exd, "explore_stats.json"))
-        ctx.cov["engines"].append({"engine": "E3 explore from divergence", "component": comp, "executions": es["executions"], "mismatch": mm})
-        ok = judge(os.path.join(exd, "explore_hist.ndjson"), comp + "_explore%d" % i, "continuations of a schedule on which the code left the Impl spec", es["histories"])
-        if ok:
-            ctx.drift.append("%s: code differs from the step-level Impl spec (%s) but %d explored continuations satisfy the abstract spec" % (comp, json.dumps(mm)[:200], es["executions"]))
-        else:
-            break
-    if ws["drift"]:
-        ctx.drift.append("%s: %d paths with structural drift, e.g. %s" % (comp, ws["drift"], (ws["drift_samples"] or [""])[0][:300]))
-    judge(os.path.join(outd, "walk_hist.ndjson"), comp + "_walkhist", "histories of the replayed TLC paths", 0)
-    # ---- code -> model: sampled schedules
-    ctx.run([binp, "sample", "-out", outd, "-n", str(sample_n), "-seed", str(ctx.seed)], timeout=1800)
-    ss = read_json(os.path.join(outd, "sample_stats.json"))
-    ctx.cov["engines"].append({"engine": "E3 sampled schedules", "component": comp, "histories": ss["histories"], "steps": ss["steps"]})
-    ctx.cov["samples"] += ss["samples"][:1]
-    judge(os.path.join(outd, "sample_hist.ndjson"), comp + "_sample", "sampled schedules", ss["histories"])
+    def e3():
+        nonlocal ws
+        # ---- model -> code
+        ctx.run([binp, "walk", "-edges", r["out"], "-out", outd, "-mode", walk_mode, "-seed", str(ctx.seed), "-traceevery", "1000000",
+                 "-maxlen", str(maxlen), "-maxsusp", "3"], timeout=900 if ctx.tier == "quick" else 3000)
+        ws = read_json(os.path.join(outd, "walk_stats.json"))
+        log("walk %s: nodes=%d edges=%d covered=%d paths=%d steps=%d drift=%d suspects=%d whitebox=%s" % (
+            comp, ws["nodes"], ws["edges_total"], ws["edges_covered"], ws["paths"], ws["steps"], ws["drift"], len(ws["suspects"]), ws["whitebox"]))
+        ctx.cov["edges_replayed"] += ws["edges_covered"]
+        ctx.cov["engines"].append({"engine": "E3 detsched replay of TLC edges", "component": comp, "nodes": ws["nodes"], "edges_total": ws["edges_total"],
+                                   "edges_covered": ws["edges_covered"], "paths": ws["paths"], "steps": ws["steps"], "whitebox": ws["whitebox"]})
+        ctx.cov["samples"] += ws["samples"][:1]
+        for i, sp in enumerate(ws["suspects"]):
+            rp = read_json(sp)
+            mm = rp["mismatch"]
+            if mm["kind"] in ("panic", "hang"):
+                ctx.violation("%s: real code %s under schedule: %s" % (comp, mm["kind"], mm["actual"]), rp, key="%s/%s" % (kp, mm["kind"]))
+                continue
+            exd = os.path.join(outd, "explore%d" % i)
+            os.makedirs(exd, exist_ok=True)
+            ctx.run([binp, "explore", "-file", sp, "-out", exd, "-budget", str(explore_budget), "-maxlen", "14"], timeout=1200)
+            es = read_json(os.path.join(exd, "explore_stats.json"))
+            ctx.cov["engines"].append({"engine": "E3 explore from divergence", "component": comp, "executions": es["executions"], "mismatch": mm})
+            ok = judge(os.path.join(exd, "explore_hist.ndjson"), comp + "_explore%d" % i, "continuations of a schedule on which the code left the Impl spec", es["histories"])
+            if ok:
+                ctx.drift.append("%s: code differs from the step-level Impl spec (%s) but %d explored continuations satisfy the abstract spec" % (comp, json.dumps(mm)[:200], es["executions"]))
+            else:
+                break
+        if ws["drift"]:
+            ctx.drift.append("%s: %d paths with structural drift, e.g. %s" % (comp, ws["drift"], (ws["drift_samples"] or [""])[0][:300]))
+        judge(os.path.join(outd, "walk_hist.ndjson"), comp + "_walkhist", "histories of the replayed TLC paths", 0)
+        # ---- code -> model: sampled schedules
+        ctx.run([binp, "sample", "-out", outd, "-n", str(sample_n), "-seed", str(ctx.seed)], timeout=1800)
+        ss = read_json(os.path.join(outd, "sample_stats.json"))
+        ctx.cov["engines"].append({"engine": "E3 sampled schedules", "component": comp, "histories": ss["histories"], "steps": ss["steps"]})
+        ctx.cov["samples"] += ss["samples"][:1]
+        judge(os.path.join(outd, "sample_hist.ndjson"), comp + "_sample", "sampled schedules", ss["histories"])
+    try:
+        e3()
+    except (Inconclusive, subprocess.TimeoutExpired) as e:
+        # the deterministic-scheduler stage could not finish (a driver that hangs or dies without a library frame to
+        # blame): the real-goroutine stages still run; without a verdict from them the check ends inconclusive
+        if not ctx.violations:
+            ctx.deferred_inconclusive = "deterministic-scheduler stage of %s did not finish: %s" % (comp, str(e)[:600])
+            log("NOTE: " + ctx.deferred_inconclusive)
     # ---- E4: real goroutines, race detector
     if ctx.violations:
         return ws   # already decided on deterministic executions; a broken container may also hang real goroutines
